@@ -84,6 +84,13 @@ BareVs == <<Var0(W("one"), "unit", <<>>), Var0(<<"two">>, "newtype", <<Fld0(<<>>
             Var0(<<"item">>, "newtype", <<Fld0(<<>>, FS("str"))>>),
             Var0(<<"dark", "blue">>, "struct", <<Fld0(VTasty, FS("i64"))>>)>>
 Bare == [EnumD("Bare", BareVs) EXCEPT !.repr = "bare_union"]
+(* identifiers with adjacent capitals (XYItem, KindAB, ABKind): serde starts a new word at EVERY capital *)
+AcrVs == <<Var0(W("one"), "unit", <<>>), Var0(<<"x", "y", "item">>, "unit", <<>>), Var0(<<"kind", "a", "b">>, "unit", <<>>)>>
+Acr == EnumD("Proto", AcrVs)
+AcrMixedVs == <<Var0(W("one"), "unit", <<>>),
+                Var0(<<"a", "b", "kind">>, "struct", <<Fld0(VTasty, FS("i64"))>>),
+                Var0(<<"x", "y">>, "newtype", <<Fld0(<<>>, FS("i32"))>>)>>
+AcrMixed == EnumD("Frame", AcrMixedVs)
 SkipAt(d, i) == [d EXCEPT !.variants[i].skip = TRUE]
 G4 == {S1(<<d>>) : d \in
         {Plain, [Plain EXCEPT !.repr = "enum"], [Plain EXCEPT !.rename = "Colour", !.ns = "ns"],
@@ -96,6 +103,8 @@ G4 == {S1(<<d>>) : d \in
               [Mixed EXCEPT !.ns = "ns"]}
         \cup {[Mixed EXCEPT !.rename_all = r] : r \in {"lowercase", "snake_case", "camelCase", "SCREAMING_SNAKE_CASE"}}
         \cup {[Mixed EXCEPT !.rename_all_fields = r] : r \in {"camelCase", "PascalCase", "UPPERCASE"}}
+        \cup {Acr, AcrMixed} \cup {[Acr EXCEPT !.rename_all = r] : r \in Rules}
+        \cup {[AcrMixed EXCEPT !.rename_all = r] : r \in {"snake_case", "SCREAMING_SNAKE_CASE", "camelCase"}}
         \cup {Bare, SkipAt(Bare, 1), [Bare EXCEPT !.rename_all = "snake_case"], [Bare EXCEPT !.rename_all_fields = "camelCase"]}}
 
 (* ---- G5: nesting of derived types ---- *)
